@@ -1,0 +1,21 @@
+//go:build verif
+
+package model
+
+import "github.com/logrange/logrange/pkg/model/tag"
+
+// VerifMixerChildren (verification harness, C16): the two inputs of a Mixer, in order.
+func VerifMixerChildren(it Iterator) (Iterator, Iterator, bool) {
+	if mr, ok := it.(*Mixer); ok {
+		return mr.src1.it, mr.src2.it, true
+	}
+	return nil, nil, false
+}
+
+// VerifLeafTags (verification harness, C16): the tag line of a LogEventIterator leaf.
+func VerifLeafTags(it Iterator) (tag.Line, bool) {
+	if lei, ok := it.(*LogEventIterator); ok {
+		return lei.tags, true
+	}
+	return "", false
+}
